@@ -66,6 +66,11 @@ def chainOf (r : Rule) (k : Kind) : Option Str :=
     | [] => some []
   else some []   -- required, uuid, enum, time, unknown names: nothing
 
+def allSome : List (Option Str) → Option (List Str)
+  | [] => some []
+  | none :: _ => none
+  | some x :: xs => (allSome xs).map (x :: ·)
+
 def chainAll (rs : List Rule) (k : Kind) : Option Str :=
   rs.foldl (fun acc r => match acc, chainOf r k with | some a, some c => some (a ++ c) | _, _ => none) (some [])
 
@@ -80,9 +85,12 @@ def emitRules (k : Kind) (ptr : Bool) (rs : List Rule) : Option Str :=
   else
     match (if k = .string then rs.find? (·.name = asc "enum") else none) with
     | some e =>
-      let vals := (e.params.getD []).map fun p => [0x22] ++ p ++ [0x22]     -- fmt.Sprintf(`"%s"`, param)
-      (chainAll (rs.filter (·.name ≠ asc "enum")) k).map fun c =>
-        asc "gozod.Enum(" ++ joinSep (asc ", ") vals ++ [0x29] ++ c ++ optional (!required && !ptr)
+      -- strconv.Quote(param) (fix 6be4d1c); `none` when a member holds a rune whose quoting is not modelled
+      match allSome ((e.params.getD []).map GenChain.emitDefaultFixed) with
+      | none => none
+      | some vals =>
+        (chainAll (rs.filter (·.name ≠ asc "enum")) k).map fun c =>
+          asc "gozod.Enum(" ++ joinSep (asc ", ") vals ++ [0x29] ++ c ++ optional (!required && !ptr)
     | none =>
       (chainAll rs k).map fun c => k.ctor ++ c ++ optional (ptr || !required)
 
